@@ -515,6 +515,10 @@ func (g *gen) resolveType(p *gpkg, f *ast.File, e ast.Expr, depth int) *gtype {
 			if f != nil && importOf(f, q.Name) == "bytes" && x.Sel.Name == "Buffer" {
 				return tBuffer
 			}
+			// a local strings.Builder is used through the same methods (it has no Bytes; Go rejects that call itself)
+			if f != nil && importOf(f, q.Name) == "strings" && x.Sel.Name == "Builder" {
+				return tBuffer
+			}
 			return &gtype{kind: kOther, name: q.Name + "." + x.Sel.Name, valueKind: -1}
 		}
 	case *ast.StarExpr:
